@@ -57,10 +57,26 @@ def expected_methods(cfg):
 
 def run(ctx):
     tab = table()
+    violations, corr_fail, nontriv = [], [], set()
+    dist = {"accepted": 0, "rejected_explicit_must_without_getter": 0, "must_methods": 0, "collisions_checked": 0, "defaults_checked": 0, "compiled_cells": 0}
+    # the complete truth table at the compile level (model vs implementation vs the documented rule) ...
+    for cfg, getter, rty, mg, dmg, meta in tab:
+        a, b, d = corr.compile_pair(ctx, [gen.yaml_doc(cfg)])
+        dist["compiled_cells"] += 1
+        for x in d[:1]:
+            if len(corr_fail) < 10:
+                corr_fail.append({"op": "compile:" + x[0], "files": [gen.yaml_doc(cfg)], "impl": x[1], "model": x[2]})
+        should_reject = getter is None and mg is True
+        if bool(a.get("errs")) != should_reject:
+            violations.append({"sig": "must-getter-without-getter", "what": "getter=%r must_getter=%r default=%r: %s, expected %s" % (getter, mg, dmg, "rejected %r" % a.get("errs") if a.get("errs") else "accepted", "rejected" if should_reject else "accepted"), "files": [gen.yaml_doc(cfg)]})
+        elif not a.get("errs"):
+            s_out = next(s_ for s_ in a["output"]["services"] if s_["name"] == "s")
+            want_must = bool(getter) and (mg if mg is not None else bool(dmg))
+            if s_out["mustGetter"] != want_must or s_out["getter"] != (getter or ""):
+                violations.append({"sig": "must-getter-table", "what": "getter=%r must_getter=%r default_must_getter=%r compiles to getter=%r mustGetter=%r, documented: mustGetter=%r" % (getter, mg, dmg, s_out["getter"], s_out["mustGetter"], want_must), "files": [gen.yaml_doc(cfg)]})
+    # ... and a third of it (per seed) built, compiled and inspected in the probe
     if ctx.quick:
         tab = [t for i, t in enumerate(tab) if i % 3 == ctx.seed % 3]
-    violations, corr_fail, nontriv = [], [], set()
-    dist = {"accepted": 0, "rejected_explicit_must_without_getter": 0, "must_methods": 0, "collisions_checked": 0, "defaults_checked": 0}
     items = []
     for cfg, getter, rty, mg, dmg, meta in tab:
         ops = [["methods"], ["newctx", "c1"]]
